@@ -195,6 +195,93 @@ static void c08PureCase(uint64_t idx, Rng &rng, CaseResult &r) {
   r.sig = std::string(sn[stage]) + f.str() + (t0 ? "x" : "r");
 }
 
+// A circuit object that lives through a history of calls (stages in any order and repeated, positions / orientations /
+// net weights changed in between, copies taken) must behave, at every call, exactly like a circuit built afresh through the
+// public setters from the data visible just before that call: placement is a function of the circuit and the parameters,
+// not of what the object has been through.
+static Circuit rebuilt(const Circuit &c) {
+  Circuit n(c.nbCells());
+  n.setCellWidth(c.cellWidth_);
+  n.setCellHeight(c.cellHeight_);
+  n.setCellIsFixed(c.cellIsFixed_);
+  n.setCellIsObstruction(c.cellIsObstruction_);
+  n.setCellRowPolarity(c.cellRowPolarity_);
+  n.setCellX(c.cellX_);
+  n.setCellY(c.cellY_);
+  n.setCellOrientation(c.cellOrientation_);
+  n.setRows(c.rows_);
+  n.setNets(c.netLimits_, c.pinCells_, c.pinXOffsets_, c.pinYOffsets_, c.netWeights_);
+  return n;
+}
+static void c08HistoryCase(Rng &rng, CaseResult &r) {
+  std::string profile, pdesc;
+  Circuit c = genGlobalCircuit(rng, profile);
+  if (c.nbCells() > 25) { GenOpts o = makeProfile(rng, "general"); o.maxCells = 20; o.minRowWidth4H = true; c = genCircuit(rng, o); profile = "general-small"; }
+  int nOps = (int)rng.range(2, 7);
+  std::ostringstream hist;
+  std::string sample;
+  if (r.needSample() || r.dumpOnly) sample = circuitJson(c);
+  if (r.dumpOnly) { r.sample = vf::J::obj().kv("profile", profile).kraw("initial_circuit", sample).str(); return; }
+  int compared = 0, moved = 0;
+  for (int k = 0; k < nOps && r.viol.empty(); ++k) {
+    int op = (int)rng.range(0, 7);
+    if (op <= 2 || op == 7) {
+      // a placement call, on the long-lived object and on a reconstruction of what is visible now
+      int stage = op == 7 ? (int)rng.range(0, 2) : op;
+      ColoquinteParameters params = genParams(rng, true, &pdesc);
+      params.global.maxNbSteps = (int)rng.range(1, 6);
+      if (rng.chance(0.3)) genGlobalParams(rng, params, nullptr, 6);
+      bool withCb = rng.chance(0.4);
+      static const char *sn[3] = {"placeGlobal", "legalize", "placeDetailed"};
+      hist << sn[stage] << (withCb ? "+cb " : " ");
+      Circuit twin = rebuilt(c);
+      Circuit before = c;
+      auto call = [&](Circuit &cc, std::string &err) -> bool {
+        PlacementCallback cb = [&](PlacementStep) { (void)cc.hpwl(); };
+        try {
+          if (stage == 0) { if (withCb) cc.placeGlobal(params, cb); else cc.placeGlobal(params); }
+          else if (stage == 1) { if (withCb) cc.legalize(params, cb); else cc.legalize(params); }
+          else { if (withCb) cc.placeDetailed(params, cb); else cc.placeDetailed(params); }
+          return true;
+        } catch (const std::exception &e) { err = e.what(); return false; }
+      };
+      std::string e1, e2;
+      bool ok1 = call(c, e1), ok2 = call(twin, e2);
+      ++compared;
+      if (ok1 != ok2 || e1 != e2)
+        r.fail("C08:long-lived-object-differs-from-rebuilt-circuit", std::string(sn[stage]) + " after history [" + hist.str() + "]: " + (ok1 ? "returned" : "threw '" + e1 + "'") + " on the object that went through the history, " + (ok2 ? "returned" : "threw '" + e2 + "'") + " on a circuit rebuilt from the same visible data");
+      else if (!sameSol(c, twin))
+        r.fail("C08:long-lived-object-differs-from-rebuilt-circuit", std::string(sn[stage]) + " after history [" + hist.str() + "]: different placements on the object that went through the history and on a circuit rebuilt from the same visible data");
+      std::string fd = frameDiff(before, c, stage == 0);
+      if (!fd.empty()) r.fail("C03:frame-changed-in-history", std::string(sn[stage]) + ": " + fd);
+      if (!sameSol(before, c)) ++moved;
+    } else if (op == 3) {
+      hist << "perturb ";
+      std::vector<int> x = c.cellX_, y = c.cellY_;
+      for (int i = 0; i < c.nbCells(); ++i) if (!c.cellIsFixed_[i] && rng.chance(0.5)) { x[i] += (int)rng.range(-30, 30); y[i] += (int)rng.range(-30, 30); }
+      c.setCellX(x);
+      c.setCellY(y);
+    } else if (op == 4) {
+      hist << "reweight ";
+      std::vector<float> w = c.netWeights_;
+      for (auto &v : w) if (rng.chance(0.5)) v = (float)rng.pick(std::vector<double>{0.5, 1.0, 2.0, 3.0});
+      c.setNetWeights(w);
+    } else if (op == 5) {
+      hist << "copy ";
+      Circuit tmp = c;   // continue on a copy, drop the original
+      c = tmp;
+    } else {
+      hist << "resize-same ";
+      c.setCellWidth(c.cellWidth_);
+      c.setCellHeight(c.cellHeight_);
+    }
+  }
+  r.count("calls_compared_with_a_rebuilt_circuit", compared);
+  r.nontrivial = compared >= 2 && moved >= 1;
+  r.sig = profile + ":" + std::to_string(compared) + ":" + std::to_string(std::min(moved, 3));
+  if (r.needSample()) r.sample = vf::J::obj().kv("profile", profile).kv("history", hist.str()).kraw("initial_circuit", sample).str();
+}
+
 // ------------------------------------------------------------------------------------------------ C08 (b)
 // Schedule control through the COLOQUINTE_VERIF hook. Each lower-bound step runs exactly two solveWithPenalty
 // calls concurrently. Per step, a schedule bit selects which of the two (first or second to begin) is held at its
@@ -356,6 +443,7 @@ int main(int argc, char **argv) {
   std::vector<vf::Part> parts;
   parts.push_back({"c06.global", [](uint64_t, Rng &rng, CaseResult &r) { c06Case(rng, r); }, 120});
   parts.push_back({"c08.pure", [](uint64_t idx, Rng &rng, CaseResult &r) { c08PureCase(idx, rng, r); }, 120});
+  parts.push_back({"c08.history", [](uint64_t, Rng &rng, CaseResult &r) { c08HistoryCase(rng, r); }, 300});
   parts.push_back({"c08.sched", [](uint64_t, Rng &rng, CaseResult &r) { c08SchedCase(rng, r, false); }, 300});
   parts.push_back({"c08.sched.light", [](uint64_t, Rng &rng, CaseResult &r) { c08SchedCase(rng, r, true); }, 300});
   return vf::runMain(argc, argv, parts);
